@@ -181,6 +181,23 @@ func planC03(p *propDef, tier string, seed uint64, n int) []*Case {
 				sc.Sched.Slow, sc.Sched.SlowDiv = strings.SplitN(pt, ".", 2)[0]+".", 64 // the stage whose workers lag behind
 			}
 		}
+		// the queue is crawl HQ and HQ is down when the stop arrives (its answers are 500 for ever), or merely slow
+		if i%2 == 0 {
+			addHQ := func(sd uint64, label string, faults map[string][]string, ctl []scen.CtlAction) {
+				add(pr, sd, label, ctl, nil)
+				sc := cases[len(cases)-1].Scenario
+				sc.Cfg.UseHQ = true
+				sc.Cfg.HQBatchSize = 1 + i%3
+				sc.HQ = &scen.HQPlan{Faults: faults}
+			}
+			addHQ(mix(pr.seed, 501), "crawl-hq,stop@idle", map[string][]string{}, nil)
+			addHQ(mix(pr.seed, 502), "crawl-hq delete fails for ever,stop@hq.fin.deleted#2", map[string][]string{"delete": {"500*"}}, []scen.CtlAction{{Name: "stop", Kind: "stop", Trigger: scen.Trigger{Point: "hq.fin.deleted", Nth: 2}}})
+			addHQ(mix(pr.seed, 503), "crawl-hq add fails for ever,stop@hq.prod.sent#2", map[string][]string{"add": {"", "500*"}}, []scen.CtlAction{{Name: "stop", Kind: "stop", Trigger: scen.Trigger{Point: "hq.prod.sent", Nth: 2}}})
+			addHQ(mix(pr.seed, 504), "crawl-hq times out for ever,stop@hq.fin.deleted#1", map[string][]string{"delete": {"timeout*"}, "add": {"timeout*"}}, []scen.CtlAction{{Name: "stop", Kind: "stop", Trigger: scen.Trigger{Point: "hq.fin.deleted", Nth: 1}}})
+			for j, pt := range []string{"hq.sender.recv", "hq.fin.recv", "hq.prod.recv", "fetch.attempt", "post.recv"} {
+				addHQ(mix(pr.seed, uint64(510+j)), fmt.Sprintf("crawl-hq,stop@%s#%d", pt, 1+j%2), map[string][]string{"delete": {"500"}, "add": {"reset-before"}}, []scen.CtlAction{{Name: "stop", Kind: "stop", Trigger: scen.Trigger{Point: pt, Nth: 1 + j%2}}})
+			}
+		}
 		// asynchronous WARC writing with a writer that lags: the WARC-queue watchdog pauses the pipeline and resumes it later
 		if pr.sc.Cfg.AsyncWARC {
 			for j, div := range []int{8, 64} {
